@@ -7,6 +7,7 @@ package main
 
 import (
 	"bufio"
+	"fmt"
 	"net/url"
 	"os"
 	"path/filepath"
@@ -29,7 +30,9 @@ var c06Tokens = []string{
 // authority terminators) is reached by the exhaustive part and not only by the random one
 var c06Prefixes = []string{
 	"https://", "http://", "https://good.test", "http://good.test", "https://sub.good.test", "https://evil.test", "https://[::1]", "//good.test", "/x", "https://127.0.0.1",
-	"https:///", // empty authority for net/url, "ignore the extra slashes" for a browser
+	"https:///",                                    // empty authority for net/url, "ignore the extra slashes" for a browser
+	"https://proxy.test", "http://proxy.test:4180", // absolute URLs on the request's own (whitelisted) host: the PATH is the payload
+	"https://w\u0130ki.test", // U+0130 lower-cases to ASCII i in Go; a browser's IDNA mapping makes it another domain
 }
 
 // c06Pow returns n^0 + ... helpers for the index <-> string mapping: strings of exactly k tokens occupy N^k indexes.
@@ -173,6 +176,19 @@ func c06RandomString(seed int64, i int) string {
 // c06KnownBad loads the repository's own open-redirect list (testdata/openredirects.txt, the list validator_test.go
 // iterates) and the table entries of validator_test.go; every entry is used query-unescaped (as the repository's test does)
 // and verbatim, and with its "whitelisted domain" replaced by ours.
+// seeds that go through every channel under every whitelist configuration like the repository's list:
+// hosts with characters whose Go case mapping / folding lands on the ASCII letters of a whitelisted name (raw and
+// percent-encoded), and absolute URLs on the request's own host whose path is an authority-smuggling tail
+var c06ExtraSeeds = []string{
+	"https://w\u0130ki.test/", "https://w%C4%B0ki.test/x", "https://w%c4%b0ki.test", "https://W\u0130K\u0130.test/", "https://sub.w\u0130ki.test/", "http://w\u0130ki.test:8443/",
+	"https://w\u0130ki.test:8443/p", "https://sub.w%C4%B0ki.test:9/", "https://wi\u212ai.test/", "https://wi%E2%84%AAi.test/", "https://w\u0131ki.test/", "https://good.te\u017ft/",
+	"https://\uff57iki.test/", "https://wiki\u2024test/", "https://g\u03bfod.test/", "https://GOOD.TEST/", "https://Wiki.Test/",
+	"https://proxy.test//evil.test/x", "http://proxy.test//evil.test", "https://proxy.test/%2Fevil.test/^", "http://proxy.test/%2fevil.test", "https://proxy.test/%2F%2Fevil.test",
+	"https://proxy.test/\\evil.test", "https://proxy.test/%5Cevil.test/^", "https://proxy.test/.//evil.test", "https://PROXY.test//evil.test", "https://proxy.test//evil.test#f",
+	"https://proxy.test/\t/evil.test", "https://proxy.test/%09/evil.test/^", "https://proxy.test///evil.test", "https://proxy.test/x/..//evil.test",
+	"http://proxy.test:4180//evil.test/x", "http://proxy.test:4180/%2Fevil.test/^", "http://proxy.test:4180/\\evil.test", "https://proxy.test:4180//evil.test", "http://proxy.test:80//evil.test",
+}
+
 func c06KnownBad() []string {
 	repo := os.Getenv("VERIF_REPO")
 	if repo == "" {
@@ -212,6 +228,9 @@ func c06KnownBad() []string {
 				add(strings.ReplaceAll(s, "evil.com", "evil.test"))
 			}
 		}
+	}
+	for _, e := range c06ExtraSeeds {
+		add(e)
 	}
 	return out
 }
@@ -291,6 +310,27 @@ func c06SafeWord(st *uint64, min, max int) string {
 		} else {
 			b.WriteByte(c06Unreserved[(*st>>8)%uint64(len(c06Unreserved))])
 		}
+	}
+	return b.String()
+}
+
+// c06SafeLongURI: a safe URI of about `length` bytes: long segments, then many / long query parameters.
+func c06SafeLongURI(seed int64, i, length int) string {
+	st := c06Mix(uint64(seed)*0x51ed270b + uint64(i)*0x9e3779b1 + 5)
+	var b strings.Builder
+	b.WriteString("/deep")
+	for b.Len() < length/3 {
+		w := c06SafeWord(&st, 6, 60)
+		if strings.Trim(w, ".") == "" {
+			continue
+		}
+		b.WriteString("/" + w)
+	}
+	sep := byte('?')
+	for k := 0; b.Len() < length; k++ {
+		b.WriteByte(sep)
+		sep = '&'
+		fmt.Fprintf(&b, "p%d=%s", k, c06SafeWord(&st, 0, 40+(k%5)*60))
 	}
 	return b.String()
 }
